@@ -1,15 +1,15 @@
 SPECIFICATION Spec
 CONSTANTS
   Cap0 = 16
-  Kinds <- KindsBlocks
+  Kinds <- KindsK1000
   GCMin = 10000
   JStar = 865
-  MaxBlocks = 40
-  MaxSteps = 46
+  MaxBlocks = 72
+  MaxSteps = 84
   MaxClears = 0
   MaxGCs = 0
-  FillFirst = 0
-  RemovableTo = 0
+  FillFirst = 64
+  RemovableTo = 16
   ExportHist = TRUE
 INVARIANTS Refines Export
 CHECK_DEADLOCK FALSE
